@@ -10,7 +10,8 @@
    encoding and naming mode, with fk_lossless / fk_progress PROVED
    (Proofs/InputKeys.v, on top of C03's Proofs/Keys.v): no hypothesis is left. *)
 From Coq Require Import Permutation.
-From Curtsies Require Import Model.Base Gen.Tables Model.Utf8 Model.Keys Model.InputQ Model.InputKeys Spec.QueueSpec Proofs.InputQ Proofs.InputKeys.
+From Curtsies Require Import Model.Base Gen.Tables Model.Utf8 Model.Keys Model.KeyMap Spec.KeySpec Proofs.Keys
+  Model.InputQ Model.InputKeys Spec.QueueSpec Proofs.InputQ Proofs.InputKeys.
 Close Scope N_scope.
 Local Open Scope Z_scope.
 
@@ -99,6 +100,148 @@ Theorem C08_none_only_after_timeout :
     send find_key th (Some t) s sc = (s', sc', ONone) -> now s + t <= now s'.
 Proof. exact none_only_after_timeout. Qed.
 Print Assumptions C08_none_only_after_timeout.
+
+(* ---- scheduled events: never before their time, earliest first --------------------
+   For a request made in ANY state (so: after every history), any decoder.  If it
+   returns the scheduled event (w, id): its time has passed (w < clock at the return);
+   every scheduled event still queued has a `when` >= w, except those scheduled by
+   the request's own script, i.e. from another thread while this very request was
+   blocked ([extra]; DESIGN section 6 puts them outside the property; witness
+   Proofs/InputQ.v sched_delivery_extra_witness); and per `when` it is the one
+   that was scheduled first (ties in trigger order). *)
+Theorem C08_sched_not_early_and_in_order :
+  forall find_key old th tmo s sc s' sc' w id,
+  send_gen find_key old th tmo s sc = (s', sc', OSched w id) ->
+  w < now s' /\
+  exists extra,
+    (forall q, In q extra -> sched_in sc q) /\
+    (forall q, In q (qsched s') -> w <= fst q \/ In q extra) /\
+    (forall w', filter (has_when w') (qsched s ++ extra) = filter (has_when w') ((w, id) :: qsched s')).
+Proof. exact sched_delivery. Qed.
+Print Assumptions C08_sched_not_early_and_in_order.
+
+(* nothing scheduled while the request is blocked: everything still queued is later or equal *)
+Theorem C08_sched_earliest_first :
+  forall find_key old th tmo s sc s' sc' w id,
+  (forall w0 id0, ~ In (Sched w0 id0) sc) ->
+  send_gen find_key old th tmo s sc = (s', sc', OSched w id) ->
+  w < now s' /\ (forall q, In q (qsched s') -> w <= fst q) /\
+  (forall w', filter (has_when w') (qsched s) = filter (has_when w') ((w, id) :: qsched s')).
+Proof. exact sched_delivery_earliest. Qed.
+Print Assumptions C08_sched_earliest_first.
+
+(* over ALL histories: every scheduled event in the trace is returned by a request
+   that returns strictly after the event's time *)
+Theorem C08_sched_never_early_all_histories :
+  forall find_key h th s tr s',
+  run find_key th s h = (tr, s') ->
+  forall w id t0 t1, In (OSched w id, t0, t1) tr -> w < t1.
+Proof. exact sched_never_early. Qed.
+Print Assumptions C08_sched_never_early_all_histories.
+
+(* ---- a request does not block or time out while something is deliverable -----------
+   ANY state in which a SIGINT, a queued event, an interrupting event, a scheduled
+   event that is due, buffered bytes or bytes waiting in the kernel exist: the
+   request returns something, the clock has not moved, no step of the
+   environment script was consumed. *)
+Theorem C08_deliverable_returns_at_once :
+  forall find_key, fk_lossless find_key -> fk_progress find_key ->
+  forall old th tmo s sc s' sc' o,
+  deliverable_at_call s -> send_gen find_key old th tmo s sc = (s', sc', o) ->
+  now s' = now s /\ sc' = sc /\ o <> ONone /\ o <> OBlocked /\ o <> OFuel.
+Proof. exact deliverable_at_once. Qed.
+Print Assumptions C08_deliverable_returns_at_once.
+
+Theorem C08_real_decoder_deliverable_returns_at_once :
+  forall enc mode th tmo s sc s' sc' o,
+  deliverable_at_call s -> send (find_key_real enc mode) th tmo s sc = (s', sc', o) ->
+  now s' = now s /\ sc' = sc /\ o <> ONone /\ o <> OBlocked /\ o <> OFuel.
+Proof. exact real_decoder_deliverable_at_once. Qed.
+Print Assumptions C08_real_decoder_deliverable_returns_at_once.
+
+(* ---- the paste clause ------------------------------------------------------------------
+   ANY state in which only a burst of bytes in the kernel is deliverable.  Unless the
+   decoder raises: if the one read (n = min(READ_SIZE, waiting) bytes) is larger than
+   paste_threshold, ONE paste event whose keypresses are decoder answers, whose bytes in
+   order are ALL the waiting bytes (the loop refills beyond READ_SIZE), nothing left;
+   otherwise ONE keypress and the rest stays queued. *)
+Theorem C08_paste_single_event :
+  forall find_key, fk_lossless find_key -> fk_progress find_key ->
+  forall old th tmo s sc s' sc' o,
+  sigints s = [] -> qev s = [] -> qint s = [] -> (forall q, In q (qsched s) -> now s <= fst q) ->
+  unproc s = [] -> kq s <> [] ->
+  send_gen find_key old th tmo s sc = (s', sc', o) ->
+  let n := Nat.min read_size_nat (length (kq s)) in
+  now s' = now s /\ sc' = sc /\
+  ((exists e d, o = ORaise e d /\ decoder_raised find_key e) \/
+   if match th with Some t => t <? Z.of_nat n | None => false end
+   then exists ks, o = OPaste ks /\ concat (map snd ks) = kq s /\ Forall (decoded_key find_key) ks /\
+                   unproc s' = [] /\ kq s' = []
+   else exists k used, o = OKey k used /\ decoded_key find_key (k, used) /\ used <> [] /\
+                       used ++ unproc s' ++ kq s' = kq s).
+Proof. exact read_burst. Qed.
+Print Assumptions C08_paste_single_event.
+
+(* the same with the real decoder: every keypress is the C03 name (name_ok) of exactly its bytes *)
+Theorem C08_real_decoder_paste_single_event :
+  forall enc mode th tmo s sc s' sc' o,
+  sigints s = [] -> qev s = [] -> qint s = [] -> (forall q, In q (qsched s) -> now s <= fst q) ->
+  unproc s = [] -> kq s <> [] ->
+  send (find_key_real enc mode) th tmo s sc = (s', sc', o) ->
+  let n := Nat.min read_size_nat (length (kq s)) in
+  now s' = now s /\ sc' = sc /\
+  ((exists e d, o = ORaise e d /\ decoder_raised (find_key_real enc mode) e) \/
+   if match th with Some t => t <? Z.of_nat n | None => false end
+   then exists ks, o = OPaste ks /\ concat (map snd ks) = kq s /\
+                   Forall (fun ku => snd ku <> [] /\ name_ok enc mode (snd ku) (fst ku) = true) ks /\
+                   unproc s' = [] /\ kq s' = []
+   else exists k used, o = OKey k used /\ name_ok enc mode used k = true /\ used <> [] /\
+                       used ++ unproc s' ++ kq s' = kq s).
+Proof. exact real_decoder_read_burst. Qed.
+Print Assumptions C08_real_decoder_paste_single_event.
+
+(* ---- where exceptions come from ------------------------------------------------------
+   A request raises only when the decoder raised, or (UnboundLocalError of _send)
+   when nothing was scheduled at the call and an event was scheduled from another
+   thread while the request was blocked (outside the property as read, DESIGN 6). *)
+Theorem C08_real_decoder_raise_origin :
+  forall enc mode th tmo s sc s' sc' e d,
+  send (find_key_real enc mode) th tmo s sc = (s', sc', ORaise e d) ->
+  decoder_raised (find_key_real enc mode) e \/
+  (e = OtherError /\ d = [] /\ qsched s = [] /\ exists q, sched_in sc q).
+Proof. exact real_decoder_raise_origin. Qed.
+Print Assumptions C08_real_decoder_raise_origin.
+
+(* PARTIAL.  Full statement wanted: for every history whose byte stream is valid
+   input (Proofs/Keys.v [atom]s), every ORaise in the trace belongs to F-C03
+   (a KEYMAP_PREFIXES member directly followed by a byte >= 0x80) or to F-C08a/b (a
+   read boundary strictly inside a multi-byte character after >= 2 of its bytes).
+   Proved here: the decoder-level statement, for EVERY buffer made of valid pieces
+   (complete atoms and stray continuation bytes left over from a character whose
+   first bytes went with an earlier read) with possibly a character cut by the
+   read boundary at its end, all encodings and naming modes; together with
+   C08_real_decoder_raise_origin (a request raises only if the decoder raised)
+   and C08_real_decoder_key_on_valid (what stays buffered after a key is again
+   such a buffer).  Missing: the invariant over histories that unprocessed_bytes
+   always IS such a buffer when the whole stream is valid (needs the future of the
+   stream in the invariant, and unget_bytes restricted to valid pieces). *)
+Theorem C08_real_decoder_raises_only_known_partial :
+  forall enc mode ps tl e used rest,
+  Forall (piece enc) ps -> cut_tail enc tl ->
+  find_key_real enc mode (concat ps ++ tl) = FkRaise e used rest ->
+  (e = UnicodeDecodeError /\ enc <> Latin1 /\ fc03_in (concat ps ++ tl)) \/
+  (e = ValueError /\ enc = Utf8 /\ ps = [] /\ (2 <= length tl)%nat /\ used = tl /\ rest = []).
+Proof. exact real_decoder_raises_only_known. Qed.
+Print Assumptions C08_real_decoder_raises_only_known_partial.
+
+Theorem C08_real_decoder_key_on_valid :
+  forall enc mode ps tl k used rest,
+  Forall (piece enc) ps -> cut_tail enc tl ->
+  find_key_real enc mode (concat ps ++ tl) = FkKey k used rest ->
+  (exists used' ps', ps = used' ++ ps' /\ used = concat used' /\ rest = concat ps' ++ tl) \/
+  (ps = [] /\ length tl = 1%nat /\ used = tl /\ rest = []).
+Proof. exact real_decoder_key_on_valid. Qed.
+Print Assumptions C08_real_decoder_key_on_valid.
 
 (* the hypotheses on the decoder are satisfiable, the invariant theorem is not vacuous *)
 Example C08_decoder_hypotheses_nonvacuous : fk_lossless toy_fk /\ fk_progress toy_fk.
